@@ -27,6 +27,7 @@ pub fn property() -> Property {
 fn gens(tier: Tier) -> Vec<Gen> {
     vec![
         Gen { name: "status-codes", count: 100 * 2, exhaustive: true, run: run_status_codes },
+        Gen { name: "non-http-location-via-proxy", count: (5 * 4 * 2) as u64, exhaustive: true, run: run_non_http_via_proxy },
         Gen { name: "chains", count: (9 * 10 * 2) as u64, exhaustive: true, run: run_chains },
         Gen { name: "webs", count: tier.pick(6_000, 500_000), exhaustive: false, run: run_web },
     ]
@@ -430,4 +431,30 @@ fn run_web(ctx: &mut Ctx, rng: &mut Rng, _index: u64) {
         web.table.insert(key, Node { status, locations });
     }
     run_one(ctx, web, start_url, max, follow, "webs");
+}
+
+/// with an http proxy configured (every plain-http request goes through it) a Location with a
+/// scheme other than http/https is still unusable: an error, and no further request - in
+/// particular not one relayed through the proxy
+fn run_non_http_via_proxy(ctx: &mut Ctx, _rng: &mut Rng, index: u64) {
+    let status = [301u16, 302, 303, 307, 308][(index % 5) as usize];
+    let scheme = ["ftp", "ws", "wss", "gopher"][((index / 5) % 4) as usize];
+    let both = (index / 20) % 2 == 1;
+    let location = format!("{scheme}://files.test/pub/x?y=1");
+    let loc2 = location.clone();
+    let world = World::install(move |_, idx, _| {
+        let resp = if idx == 0 { format!("HTTP/1.1 {status} Moved\r\nLocation: {loc2}\r\nContent-Length: 0\r\n\r\n").into_bytes() } else { b"HTTP/1.1 200 OK\r\nContent-Length: 2\r\n\r\nok".to_vec() };
+        crate::transport::Answer::Script(vec![crate::transport::Step::Data(resp)], crate::transport::WriteFaults::default())
+    });
+    let mut ps = attohttpc::ProxySettings::builder().http_proxy(url::Url::parse("http://proxy.test:3128").unwrap());
+    if both {
+        ps = ps.https_proxy(url::Url::parse("http://proxy.test:3128").unwrap());
+    }
+    let res = attohttpc::get("http://a.test/start").proxy_settings(ps.build()).send();
+    let descr = format!("GET http://a.test/start via http proxy -> {status} Location: {location}: {:?}, {} connections", res.as_ref().map(|r| (r.status().as_u16(), r.url().to_string())).map_err(|e| format!("{e:?}")), world.dial_count());
+    ctx.count("non_http_scheme_location", 1);
+    if res.is_ok() || world.dial_count() != 1 {
+        ctx.violation("non-http-location-followed", format!("a Location with a non-http scheme must end the exchange with an error and no further request; {descr}"));
+    }
+    ctx.nontrivial(descr.as_bytes());
 }
